@@ -643,12 +643,12 @@ theorem TInv.of_mem {m : Nat} {inf inf' : List Entry} {q : DelayQ} {now : Nat} (
     obtain ⟨en, hen, e1, e2⟩ := h.t2e k v w hk
     exact ⟨en, (hm en).mpr hen, e1, e2⟩⟩
 
-/-- `poll_expired` on a consistent table: a yielded timer belongs to exactly one entry, whose deadline has passed
-up to the `remainder` still to be armed; without the entry the table is consistent with the queue after the poll. -/
+/-- `poll_expired` on a consistent table: a yielded timer belongs to exactly one entry, whose timer (which is due) and
+`remainder` reach its deadline; without the entry the table is consistent with the queue after the poll. -/
 theorem TInv.expired {m : Nat} {inf : List Entry} {q : DelayQ} {now : Nat} (h : TInv m inf q now)
     (hn : (inf.map (·.id)).Nodup) :
     (∀ e, (q.pollExpired now).2 = .expired e →
-      ∃ en ∈ inf, en.id = e.val ∧ en.ctx.deadline ≤ now + en.remainder ∧
+      ∃ en ∈ inf, en.id = e.val ∧ en.ctx.deadline ≤ e.whenMs * nsPerMs + en.remainder ∧ e.whenMs * nsPerMs ≤ now ∧
         TInv m (inf.filter (·.id != e.val)) (q.pollExpired now).1 now) ∧
     ((q.pollExpired now).2.entry = none → TInv m inf (q.pollExpired now).1 now) := by
   have hs := pollExpired_spec q now h.wf h.timely
@@ -660,8 +660,8 @@ theorem TInv.expired {m : Nat} {inf : List Entry} {q : DelayQ} {now : Nat} (h : 
     have hwe : w = e.whenMs := by
       rw [e1, e2] at hw
       exact (Has.functional h.wf hw h1).2
-    refine ⟨en, hen, e2, ?_, ?_⟩
-    · rw [hwe] at hd; omega
+    refine ⟨en, hen, e2, ?_, h2, ?_⟩
+    · rw [hwe] at hd; exact hd
     · refine ⟨Nat.le_trans (List.length_filter_le _ _) h.bound, hs.wf, hs.timely, ?_, ?_⟩
       · intro en' hen'
         simp only [List.mem_filter, bne_iff_ne, ne_eq] at hen'
@@ -1208,7 +1208,7 @@ theorem Inv'.expireWith {x : Option Nat} {b : Snap} {s : St} {now : Nat} (h : In
   unfold Client.expireWith
   split
   · rename_i q e
-    obtain ⟨en0, hen0, hid0, hdl, ht⟩ := hsome e rfl
+    obtain ⟨en0, hen0, hid0, hdl, hdue, ht⟩ := hsome e rfl
     simp only at ht
     cases hf : findEntry s e.val with
     | none => exact absurd hid0 (findEntry_none_ne hf en0 hen0)
@@ -1216,31 +1216,32 @@ theorem Inv'.expireWith {x : Option Nat} {b : Snap} {s : St} {now : Nat} (h : In
       obtain ⟨hen, hid⟩ := findEntry_some_mem hf
       have heq : en = en0 := eq_of_nodup_map (·.id) h.i.inNodup hen hen0 (by rw [hid, hid0])
       subst heq
-      show Inv' x b (ExpStep.st (if en.remainder != 0 then _ else _)) now
+      show Inv' x b (ExpStep.st (if en.remainder - (now - e.whenMs * nsPerMs) != 0 then _ else _)) now
       split
-      · -- the timer is re-armed with (part of) the remainder
+      · -- the timer is re-armed with (part of) what is left of the remainder after the lateness
         rename_i hne
-        have hne' : en.remainder ≠ 0 := by simpa using hne
+        have hne' : en.remainder - (now - e.whenMs * nsPerMs) ≠ 0 := by simpa using hne
         unfold Client.rearm
-        rcases rearmWith_cases s e.val (clampTimeout en.remainder) (q.insert now (clampTimeout en.remainder) e.val) with
+        rcases rearmWith_cases s e.val (now - e.whenMs * nsPerMs + clampTimeout (en.remainder - (now - e.whenMs * nsPerMs)))
+            (q.insert now (clampTimeout (en.remainder - (now - e.whenMs * nsPerMs))) e.val) with
           ⟨q', w, hins, hrw⟩ | ⟨q', key, w, hins, hrw⟩
         · rw [hrw]
           exact Inv'.emit (s := { s with poisoned := true }) ⟨h.fr, h.t, h.i, h.c, h.r, h.o⟩
             ⟨rfl, insert_panic_late hins⟩
         · rw [hrw]
-          have hle := clampTimeout_le_self en.remainder
-          have hT : TInv s.maxInFlight (s.inflight.map (rearmEntry e.val key (clampTimeout en.remainder))) q' now := by
+          generalize hcut : now - e.whenMs * nsPerMs + clampTimeout (en.remainder - (now - e.whenMs * nsPerMs)) = cut
+          have hle := clampTimeout_le_self (en.remainder - (now - e.whenMs * nsPerMs))
+          have hT : TInv s.maxInFlight (s.inflight.map (rearmEntry e.val key cut)) q' now := by
             have h1 : TInv s.maxInFlight
-                (s.inflight.filter (·.id != e.val) ++
-                  [{ en with timerKey := key, remainder := en.remainder - clampTimeout en.remainder }]) q' now := by
-              refine ht.insertEntry ?_ { en with timerKey := key, remainder := en.remainder - clampTimeout en.remainder }
+                (s.inflight.filter (·.id != e.val) ++ [{ en with timerKey := key, remainder := en.remainder - cut }]) q' now := by
+              refine ht.insertEntry ?_ { en with timerKey := key, remainder := en.remainder - cut }
                 (by rw [← hid] at hins; exact hins) (by simp only; omega)
               have := length_filter_ne_lt hen
               rw [hid] at this
               exact Nat.lt_of_lt_of_le this h.t.bound
             refine h1.of_mem (by rw [List.length_map]; exact h.t.bound) (fun y => ?_)
             rw [← hid]; exact mem_map_rearm h.i.inNodup hen key _ y
-          have hS : Inv' x b { s with timers := q', inflight := s.inflight.map (rearmEntry e.val key (clampTimeout en.remainder)) } now :=
+          have hS : Inv' x b { s with timers := q', inflight := s.inflight.map (rearmEntry e.val key cut) } now :=
             h.rekey _ (rearmEntry_same _ _ _) rfl rfl rfl rfl rfl rfl hT
           show Inv' x b (if w = true then _ else _) now
           split
@@ -1248,7 +1249,7 @@ theorem Inv'.expireWith {x : Option Nat} {b : Snap} {s : St} {now : Nat} (h : In
           · exact hS
       · -- nothing left to arm: the deadline has passed
         rename_i hz
-        have hz' : en.remainder = 0 := by simpa using hz
+        have hz' : en.remainder - (now - e.whenMs * nsPerMs) = 0 := by simpa using hz
         have h1 : Inv' x b { s with timers := q, inflight := s.inflight.filter (·.id != e.val) } now :=
           h.shrink rfl (List.Sublist.refl _) List.filter_sublist rfl rfl rfl ht
         refine h1.osSend en.cid .deadline ?_
@@ -1281,7 +1282,8 @@ theorem Inv'.pollExpired {x : Option Nat} {b : Snap} {s : St} {now : Nat} (h : I
 theorem expireStep_of_expired {s : St} {now : Nat} {e : DqEntry} {en : Entry}
     (h : (s.timers.pollExpired now).2 = .expired e) (hf : findEntry s e.val = some en) :
     expireStep s now =
-      if en.remainder != 0 then rearm s (s.timers.pollExpired now).1 now e.val en
+      if en.remainder - (now - e.whenMs * nsPerMs) != 0 then
+        rearm s (s.timers.pollExpired now).1 now e.val en (now - e.whenMs * nsPerMs)
       else .done (osSend { s with timers := (s.timers.pollExpired now).1,
                                   inflight := s.inflight.filter (·.id != e.val) } en.cid .deadline) true := by
   unfold Client.expireStep
@@ -1292,10 +1294,11 @@ theorem expireStep_of_expired {s : St} {now : Nat} {e : DqEntry} {en : Entry}
   simp only [Client.expireWith, hf]
 
 /-- Re-arming never fails a request. -/
-theorem rearm_ne_done_true (s : St) (q : DelayQ) (now id : Nat) (en : Entry) (s' : St) :
-    rearm s q now id en ≠ .done s' true := by
+theorem rearm_ne_done_true (s : St) (q : DelayQ) (now id : Nat) (en : Entry) (late : Nat) (s' : St) :
+    rearm s q now id en late ≠ .done s' true := by
   unfold Client.rearm
-  rcases rearmWith_cases s id (clampTimeout en.remainder) (q.insert now (clampTimeout en.remainder) id) with
+  rcases rearmWith_cases s id (late + clampTimeout (en.remainder - late))
+      (q.insert now (clampTimeout (en.remainder - late)) id) with
     ⟨_, _, _, hrw⟩ | ⟨_, _, _, _, hrw⟩ <;> rw [hrw] <;> simp
 
 /-! ### `failAll`, queues -/
